@@ -788,8 +788,9 @@ func init() {
 func init() {
 	register(&checkDef{prop: "C12", parts: []part{
 		{name: "c12", gen: genC12, monitors: []Monitor{monC12, monC14}, labels: labelsC12, nontrivial: ntC12, quick: 800, thorough: 25000},
+		{name: "c12_windows", gen: genC12Win, monitors: []Monitor{monC12, monC14}, labels: labelsC12Win, nontrivial: ntC12Win, quick: 1200, thorough: 40000},
 	},
-		rule: "model-based registry histories: open(key) with keys from a small colliding pool incl. nil and no key function, close from the handler side / by Stop / by context / by carrier break, RPCs routed through AsChannel or KeyAsChannel(k) (with bursts), Ready, WaitForReady with virtual-time timeouts, AllReverseTunnels, executed one at a time to quiescence against the real handler and against a list model in lock-step; yield points between the two registration / deregistration steps armed; non-trivial = at least two tunnels share a key and a close happened between routed RPCs"})
+		rule: "model-based registry histories: open(key) with keys from a small colliding pool incl. nil and no key function, close from the handler side / by Stop / by context / by carrier break, RPCs routed through AsChannel or KeyAsChannel(k) (with bursts), Ready, WaitForReady with virtual-time timeouts, AllReverseTunnels, executed one at a time to quiescence against the real handler and against a list model in lock-step; yield points between the two registration / deregistration steps armed; non-trivial = at least two tunnels share a key and a close happened between routed RPCs. c12_windows: the same histories with opens and closes held half-way (parked inside the application's AffinityKey / open / close callbacks or at the yield points between the registry's steps) while other operations run, judged against a three-valued model (in / out / in transition); non-trivial = a registry query ran while an open or close was held"})
 }
 
 func init() {
@@ -822,6 +823,7 @@ func init() {
 	}
 	union("C13", monC13, ntMultiRPC)
 	union("C14", monC14, ntAbnormalEnd)
+	addParts("C14", part{name: "u_c12win", gen: genC12Win, monitors: []Monitor{monC14}, labels: labelsC12Win, nontrivial: ntC12Win, quick: 600, thorough: 20000})
 	addParts("C14", part{name: "u_c12", gen: genC12, monitors: []Monitor{monC14}, labels: labelsC12, nontrivial: func(c *Case, tr *Trace) bool { return len(c.Reg) > 3 }, quick: 250, thorough: 8000})
 }
 
